@@ -86,8 +86,10 @@ def corpus():
                                    nlocks=2, tasks=[(0, 1), (-1, -1), (0, -1)], nq=1)))
     # direct lock_dependency against a queue scan, two queues
     cs.append(("direct", base_case(2, 1, [["A0:0", "A1:1", "D1", "T0", "U0", "U0"], ["D0", "Y1", "U0", "T1", "U0"]], nlocks=2, tasks=T2, nq=2)))
-    # a task that names the same lock twice is never handed out (theorem C08_same_lock_twice_never_returned; defect D2 at container level)
-    cs.append(("samelock", base_case(2, 1, [["A0:0", "T0", "Y0", "D0"], ["T0", "t0", "u0", "T0"]], nlocks=1, tasks=[(0, 0)], nq=1)))
+    # a task given the same lock twice (one subgrid on a periodic axis, D2): as repaired it has ONE dependency,
+    # is handed out with it, and unlock_dependency releases exactly that one lock
+    cs.append(("samelock", base_case(2, 1, [["A0:0", "T0", "U0", "A0:1", "Y0", "U0"], ["T0", "U0", "t0", "u0", "D0", "U0", "T0", "U0"]],
+                                     nlocks=2, tasks=[(0, 0), (1, 1)], nq=1)))
     # three threads
     cs.append(("pool3t", base_case(3, 2, [["g", "f0"], ["g", "f0"], ["g", "f0"]])))
     cs.append(("queue3t", base_case(3, 1, [["A0:0", "A0:1", "T0", "U0"], ["T0", "U0", "T0"], ["Y0", "U0", "T0", "U0"]], nlocks=2, tasks=T2 + [(1, -1)], nq=1)))
@@ -108,7 +110,10 @@ def gen_random(rng, idx):
         r = rng.below(8)
         if r == 0:
             c["tasks"].append((-1, -1))
-        elif r <= 2 or c["nlocks"] == 1:
+        elif r == 1:
+            a = rng.below(c["nlocks"])
+            c["tasks"].append((a, a))          # the same lock twice
+        elif r == 2 or c["nlocks"] == 1:
             c["tasks"].append((rng.below(c["nlocks"]), -1))
         else:
             a = rng.below(c["nlocks"])
@@ -188,7 +193,9 @@ def oracle(c, block):
     """property C08 decided on ONE log of the real code (independent of the model).
     returns None or a description of the clause that fails"""
     psize = c["psize"]
-    deps = [[x for x in (a, b) if x >= 0] if a >= 0 else [] for (a, b) in c["tasks"]]
+    # the resources of a task = the SET of locks it declared (a lock declared twice is one resource)
+    deps = [([a] + ([b] if b >= 0 and b != a else [])) if a >= 0 else [] for (a, b) in c["tasks"]]
+    scan = {}        # thread -> state of a get_task scan in progress (for the hand-out clause)
     slot_owner = {}
     lock_holder = {}
     curop = {}
@@ -204,6 +211,11 @@ def oracle(c, block):
             f = l.split()
             t, name, obj = int(f[1]), f[2], f[3]
             ret = f[f.index("ret") + 1] if "ret" in f[6:] else None
+            for t2 in scan:
+                if t2 != t:
+                    scan[t2]["solo"] = False
+            if name == "cas_lock" and obj.startswith("qlock:") and f[4] == "0" and curop.get(t, "").split(":")[0] in ("gettask", "trygettask"):
+                scan[t] = {"q": int(obj.split(":")[1]), "solo": True, "free": None, "step": step}
             if name == "start":
                 curop[t] = obj
                 o = obj.split(":")
@@ -239,7 +251,13 @@ def oracle(c, block):
                     if x in lock_holder:
                         return "lock %d acquired by thread %d at step %d while %s holds it" % (x, t, step, lock_holder[x])
                     lock_holder[x] = "T%d" % t
+                elif o[0] in ("gettask", "trygettask") and ret == "none":
+                    sc = scan.pop(t, None)
+                    if sc and sc["solo"] and sc["free"] is not None:
+                        return ("get_task on queue %d (steps %d-%d, caller running alone) returned no task although task %d in the queue had all its locks free"
+                                % (sc["q"], sc["step"], step, sc["free"]))
                 elif o[0] in ("gettask", "trygettask") and ret != "none":
+                    scan.pop(t, None)
                     k = int(ret)
                     key = (int(o[1]), k)
                     handed[key] = handed.get(key, 0) + 1
@@ -264,6 +282,17 @@ def oracle(c, block):
                     max_done[int(o[1])] = max(max_done.get(int(o[1]), 0), int(o[2]))
         elif l.startswith("= "):
             st = parse_state(l)
+            for t2, sc in scan.items():
+                if sc["free"] is None and sc["step"] == step:
+                    qq = st["Q"].split(";")[sc["q"]].partition(":")[2]
+                    sc["free"] = -1
+                    for k in (qq.split(",") if qq else []):
+                        if int(k) < len(deps) and all(st["L"][x] == "0" for x in deps[int(k)]):
+                            sc["free"] = int(k)
+                            break
+                    if sc["free"] == -1:
+                        sc["free"] = None
+                        sc["step"] = -1      # nothing lockable when the scan started: clause not applicable
             if "0" in st["I"]:
                 continue
             # no operation in flight
@@ -446,12 +475,15 @@ def run(ck):
                     ck.breaks.append("correspondence C08 model <-> containers: " + desc + " case=" + json.dumps(c))
         if len(samples) < 2 and cid in ("c_pool2wrap", "c_queue2"):
             samples.append({"case": cid, "programs": c["progs"], "first_steps": [l for l in blk if l.startswith("s ")][:12], "last": blk[-1]})
-    # the container-level face of defect D2 (theorem C08_same_lock_twice_never_returned) on the real code
+    # regression for the repair of D2 (Task::set_extra_dependency): the real queue must hand out a task that was given the same lock twice
     blk = bi.get("c_samelock")
     if blk:
         rets = [l.split()[-1] for l in blk if l.startswith("s ") and " ret " in l and l.split()[2] == "cas_unlock" and l.split()[3].startswith("qlock") and l.split()[-1] != "-"]
-        cov["same_lock_twice"] = ("real TaskQueue::get_task/try_get_task on a queue holding a task whose two dependencies are the same (free) lock returned %s: "
-                                  "never handed out, as the model proves" % sorted(set(rets)))
+        rel = sum(1 for l in blk if l.startswith("s ") and l.split()[2] == "cas_unlock" and l.split()[3].startswith("lock:"))
+        cov["same_lock_twice"] = ("real TaskQueue::get_task/try_get_task on tasks whose two dependencies are the same lock returned %s; %d lock releases in the run "
+                                  "(model: identical, step by step)" % (rets, rel))
+        if not any(r not in ("none",) for r in rets):
+            ck.breaks.append("regression D2: the real TaskQueue never handed out the task whose two dependencies are the same lock (case c_samelock)")
     if not ck.quick and not (ck.breaks or mism):
         # extra evidence (thorough tier): the property oracle on every real log; not part of the verdict (DESIGN 2.4)
         bad = sum(1 for cid, c in cases if bi.get(cid) and oracle(c, bi[cid]))
